@@ -204,8 +204,7 @@ theorem ofMesg_toMesg_norm (T : MesgTable) (hw : T.wf = true) (fac : Nat → Fie
     have : Z.map (·.1.num) = T.slots.map (·.num) := by
       rw [← hzf, List.map_map]; rfl
     rw [this]
-    simp only [MesgTable.wf, Bool.and_eq_true] at hw
-    exact hw.1.2
+    exact wf_nodup T hw
   have hU : ∀ f ∈ st.unknown, stored T f = false := fun f hf => (hun f hf).2
   have hfields : (toMesg T fac { includeExpanded := true } st).fields = knownOf T fac st Z ++ st.unknown := by
     simp only [toMesg, knownOf]
